@@ -4,6 +4,8 @@ package main
 
 import (
 	"fmt"
+	"os"
+	"runtime"
 	"sync"
 	"go/constant"
 	"go/token"
@@ -119,7 +121,12 @@ type Exec struct {
 	rootWrites []writeTarget
 	symMu     sync.Mutex
 	intQuants []intQuant
-	idxTerms  []Term
+	idxTerms  []idxTerm
+	instGen   int
+	loopFresh map[string]bool
+	loopPreAlloc Term
+	compType  map[string]types.Type
+	funSigs   map[string]string
 	idxSeen   map[string]bool
 	boxOf     map[string]Term // defined Any symbol -> the reference it boxes
 }
@@ -171,6 +178,14 @@ func isAtom(t Term) bool {
 }
 
 func (e *Exec) declFun(name string, argSorts []string, res string) {
+	sig := strings.Join(argSorts, " ") + " -> " + res
+	if e.funSigs == nil {
+		e.funSigs = map[string]string{}
+	}
+	if old, ok := e.funSigs[name]; ok && old != sig {
+		panic(fmt.Sprintf("fatal: uninterpreted symbol %s used with two signatures: (%s) and (%s)", name, old, sig))
+	}
+	e.funSigs[name] = sig
 	if e.declared[name] {
 		return
 	}
@@ -193,30 +208,65 @@ type intQuant struct {
 	q       Term
 	inst    func(t Term) Term
 	forall  bool
-	created int
+	nested  bool // the body contains further quantifiers
+	gen     int
 }
 
-func (e *Exec) registerIntQuant(q Term, inst func(t Term) Term, forall bool) {
+type idxTerm struct {
+	t   Term
+	gen int
+}
+
+const maxInstGen = 2
+
+func (e *Exec) registerIntQuant(q Term, inst func(t Term) Term, forall bool, nested bool) {
 	if e.inQuant > 0 {
 		return
 	}
-	iq := intQuant{q: q, inst: inst, forall: forall, created: len(e.items)}
+	iq := intQuant{q: q, inst: inst, forall: forall, nested: nested, gen: e.instGen}
 	e.intQuants = append(e.intQuants, iq)
-	for _, t := range e.idxTerms {
+	if iq.gen >= maxInstGen {
+		return
+	}
+	for _, t := range append([]idxTerm{}, e.idxTerms...) {
 		e.instantiate(iq, t)
 	}
+	// witness constant: if an exists holds (a forall fails) it does so at sk — conservative, whatever the polarity
+	sk := e.fresh("wit", "Int")
+	saved := e.instGen
+	e.instGen = iq.gen + 1
+	if forall {
+		e.assumeKeyed(q, Implies(Not(q), Not(inst(sk))), "")
+	} else {
+		e.assumeKeyed(q, Implies(q, inst(sk)), "")
+	}
+	e.instGen = saved
+	e.noteIndexTermGen(sk, iq.gen+1)
 }
 
-func (e *Exec) instantiate(iq intQuant, t Term) {
+func (e *Exec) instantiate(iq intQuant, t idxTerm) {
+	if iq.nested && (t.gen > 0 || iq.gen > 0) {
+		return
+	}
+	saved := e.instGen
+	g := iq.gen
+	if t.gen > g {
+		g = t.gen
+	}
+	e.instGen = g + 1
+	inst := iq.inst(t.t)
+	e.instGen = saved
 	if iq.forall {
-		e.assumeKeyed(iq.q, Implies(iq.q, iq.inst(t)), "")
+		e.assumeKeyed(iq.q, Implies(iq.q, inst), "")
 	} else {
-		e.assumeKeyed(iq.q, Implies(iq.inst(t), iq.q), "")
+		e.assumeKeyed(iq.q, Implies(inst, iq.q), "")
 	}
 }
 
 // noteIndexTerm: the program (or a contract) indexes a slice at t.
-func (e *Exec) noteIndexTerm(t Term) {
+func (e *Exec) noteIndexTerm(t Term) { e.noteIndexTermGen(t, 0) }
+
+func (e *Exec) noteIndexTermGen(t Term, gen int) {
 	if e.inQuant > 0 || e.idxSeen[t] {
 		return
 	}
@@ -224,9 +274,12 @@ func (e *Exec) noteIndexTerm(t Term) {
 		e.idxSeen = map[string]bool{}
 	}
 	e.idxSeen[t] = true
-	e.idxTerms = append(e.idxTerms, t)
-	for _, iq := range e.intQuants {
-		e.instantiate(iq, t)
+	it := idxTerm{t, gen}
+	e.idxTerms = append(e.idxTerms, it)
+	for _, iq := range append([]intQuant{}, e.intQuants...) {
+		if iq.gen < maxInstGen {
+			e.instantiate(iq, it)
+		}
 	}
 }
 
@@ -273,6 +326,20 @@ func (e *Exec) rollback(sn *snapshot) {
 		e.items = append(e.items, Item{Kind: ItemDecl, Sym: init, Text: fmt.Sprintf("(declare-const %s %s)", init, e.compSort[k])})
 		e.initCompFacts(k, e.compSort[k], init)
 	}
+}
+
+// assumeForallInt assumes (forall i. body(i)) and registers it for generator-side instantiation.
+// guard (may be "true") is a condition under which the fact holds.
+func (e *Exec) assumeForallInt(guard Term, body func(i Term) Term, pattern func(i Term) Term, note string) {
+	e.nfresh++
+	v := fmt.Sprintf("iq%d", e.nfresh)
+	txt := body(v)
+	if pattern != nil {
+		txt = fmt.Sprintf("(! %s :pattern (%s))", txt, pattern(v))
+	}
+	q := e.define("Q", "Bool", fmt.Sprintf("(forall ((%s Int)) %s)", v, txt))
+	e.assume(Implies(guard, q), note)
+	e.registerIntQuant(q, func(t Term) Term { return body(t) }, true, false)
 }
 
 // assumeKeyed: an assumption that is only useful for reasoning about symbol `key`.
@@ -337,6 +404,35 @@ func (e *Exec) setComp(s *State, name, sort string, term Term) {
 		e.wlog = append(e.wlog, writeRec{name, ref})
 	} else {
 		e.wlog = append(e.wlog, writeRec{name, ""})
+	}
+	s.comps[name] = e.define(name, sort, term)
+}
+
+func pathKey(p []int) string {
+	var parts []string
+	for _, i := range p {
+		parts = append(parts, fmt.Sprint(i))
+	}
+	return strings.Join(parts, ".")
+}
+
+func parsePathKey(s string) []int {
+	var out []int
+	for _, p := range strings.Split(s, ".") {
+		n := 0
+		fmt.Sscan(p, &n)
+		out = append(out, n)
+	}
+	return out
+}
+
+// setCompRefs: like setComp, for updates that write the cells `refs` (logged explicitly).
+func (e *Exec) setCompRefs(s *State, name, sort string, term Term, refs ...Term) {
+	if _, ok := e.compSort[name]; !ok {
+		e.comp(s, name, sort)
+	}
+	for _, r := range refs {
+		e.wlog = append(e.wlog, writeRec{name, r})
 	}
 	s.comps[name] = e.define(name, sort, term)
 }
@@ -413,15 +509,26 @@ func (e *Exec) refineMods(changed map[string]bool, logStart, limit int) modSet {
 			continue
 		}
 		logged[w.comp] = true
+		wref, wpath := w.ref, ""
+		if i := strings.Index(w.ref, "#"); i >= 0 {
+			wref, wpath = w.ref[:i], w.ref[i:]
+		}
 		if w.ref == "" {
 			ms.add(w.comp, "")
-		} else if e.stableRef(w.ref, limit) {
-			ms.add(w.comp, w.ref)
-		} else if e.freshDuring(w.ref, limit) {
+		} else if w.ref == "@fresh" {
+			if ms[w.comp] == nil {
+				ms[w.comp] = map[string]bool{}
+			}
+		} else if e.stableRef(wref, limit) {
+			ms.add(w.comp, wref+wpath)
+		} else if e.freshDuring(wref, limit) {
 			// a cell allocated during the region: invisible to the surrounding context
 			if ms[w.comp] == nil {
 				ms[w.comp] = map[string]bool{}
 			}
+		} else if e.loopFresh[wref] {
+			// backing array of an accumulator slice: allocated inside the loop (checked invariant)
+			ms.add(w.comp, "@loopfresh")
 		} else {
 			ms.add(w.comp, "")
 		}
@@ -460,13 +567,52 @@ func (e *Exec) applyHavoc(s *State, ms modSet) {
 			e.havocComp(s, m)
 			continue
 		}
+		if refs["@loopfresh"] {
+			// everything allocated before the loop keeps its value, except the known cells
+			so := e.compSort[m]
+			old := e.comp(s, m, so)
+			e.havocComp(s, m)
+			nw := s.comps[m]
+			cond := []Term{app("<=", "rq", e.loopPreAlloc)}
+			for r := range refs {
+				if r != "@loopfresh" {
+					if i := strings.Index(r, "#"); i >= 0 {
+						r = r[:i]
+					}
+					cond = append(cond, Not(Eq("rq", r)))
+				}
+			}
+			e.assumeKeyed(nw, fmt.Sprintf("(forall ((rq Int)) (! (=> %s (= (select %s rq) (select %s rq))) :pattern ((select %s rq))))", And(cond...), nw, old, nw), "loop frame: only memory allocated inside the loop is written")
+			continue
+		}
 		if len(refs) == 0 {
 			continue
 		}
 		so := e.compSort[m]
 		cur := e.comp(s, m, so)
 		t := cur
+		whole := map[string]bool{}
+		for r := range refs {
+			if !strings.Contains(r, "#") {
+				whole[r] = true
+			}
+		}
 		for _, r := range sortedKeys(refs) {
+			if i := strings.Index(r, "#"); i >= 0 {
+				ref := r[:i]
+				root := e.compType[m]
+				if whole[ref] || root == nil {
+					if !whole[ref] {
+						whole[ref] = true
+						t = Store(t, ref, e.fresh(m+"_cell", elemSortOfArray(so)))
+					}
+					continue
+				}
+				path := parsePathKey(r[i+1:])
+				ft := e.typeAtPath(root, path)
+				t = Store(t, ref, e.updPath(root, Select(t, ref), path, e.fresh(m+"_fld", e.reg.sortOf(ft))))
+				continue
+			}
 			t = Store(t, r, e.fresh(m+"_cell", elemSortOfArray(so)))
 		}
 		sym := e.define(m, so, t)
@@ -479,6 +625,9 @@ func (e *Exec) applyHavoc(s *State, ms modSet) {
 }
 
 func (e *Exec) havocComp(s *State, name string) {
+	if os.Getenv("GOVC_DEBUG") == "2" && e.discovery == 0 {
+		fmt.Fprintf(os.Stderr, "DEBUG havocComp %s\n%s\n", name, debugStack())
+	}
 	e.wlog = append(e.wlog, writeRec{name, ""})
 	sort := e.compSort[name]
 	sym := e.fresh(name+"!h", sort)
@@ -611,7 +760,15 @@ func (e *Exec) store(s *State, a *Addr, v Term) {
 		n, so := e.heapName(a.Root)
 		h := e.comp(s, n, so)
 		nc := e.updPath(a.Root, Select(h, a.Ref), a.Path, v)
-		e.setComp(s, n, so, Store(h, a.Ref, nc))
+		if len(a.Path) > 0 {
+			if e.compType == nil {
+				e.compType = map[string]types.Type{}
+			}
+			e.compType[n] = a.Root
+			e.setCompRefs(s, n, so, Store(h, a.Ref, nc), a.Ref+"#"+pathKey(a.Path))
+		} else {
+			e.setComp(s, n, so, Store(h, a.Ref, nc))
+		}
 	default:
 		n, so := e.arrName(a.Root)
 		h := e.comp(s, n, so)
@@ -673,6 +830,12 @@ type loopInfo struct {
 	phiSyms map[*ssa.Phi]Val
 	headerState *State
 	preState *State
+	accum   []*ssa.Phi
+	preAlloc Term
+}
+
+func (e *Exec) accumInv(s Term, li *loopInfo) Term {
+	return Or(app(">", app("s_base", s), li.preAlloc), And(Eq(app("s_cap", s), "0"), Eq(app("s_base", s), "0")))
 }
 
 func (e *Exec) val(f *Frame, v ssa.Value) Val {
@@ -1135,15 +1298,47 @@ func (e *Exec) enterLoop(f *Frame, li *loopInfo, h *ssa.BasicBlock, st *State, r
 		entryPhi[phi] = e.mergeVals(vs, conds, f.prefix+phi.Name()+"_entry")
 	}
 	li.preState = st.clone()
-	// 2. discovery: which components does the body modify?
-	mods := e.discoverLoopMods(f, li, st, reach, entryPhi)
-	// 3. inv-init obligations
+	li.preAlloc = e.allocCtr(st)
+	li.accum = nil
+	// 2. symbols for the loop-carried values (an arbitrary iteration) and their automatic facts
+	li.phiSyms = map[*ssa.Phi]Val{}
+	for _, ins := range h.Instrs {
+		phi, ok := ins.(*ssa.Phi)
+		if !ok {
+			break
+		}
+		nv := e.havocVal(phi.Type(), f.prefix+phi.Name())
+		if entryPhi[phi].Clo != nil {
+			nv.Clo = entryPhi[phi].Clo
+		}
+		li.phiSyms[phi] = nv
+		e.autoPhiFacts(f, li, phi, nv, entryPhi[phi], st)
+	}
+	// 3. discovery: which components does the body modify (run from an arbitrary iteration)?
+	savedLF := e.loopFresh
+	e.loopFresh = map[string]bool{}
+	for k := range savedLF {
+		e.loopFresh[k] = true
+	}
+	for _, phi := range li.accum {
+		e.loopFresh[app("s_base", li.phiSyms[phi].Term)] = true
+	}
+	mods := e.discoverLoopMods(f, li, st, reach, li.phiSyms)
+	e.loopFresh = savedLF
+	if os.Getenv("GOVC_DEBUG") != "" && e.discovery == 0 {
+		fmt.Fprintf(os.Stderr, "DEBUG loop %d of %s mods:\n", li.ordinal, f.fn.Name())
+		for _, m := range sortedKeys(mods) {
+			fmt.Fprintf(os.Stderr, "   %s %v\n", m, sortedKeys(mods[m]))
+		}
+	}
+	// 4. inv-init obligations
 	for phi, v := range entryPhi {
 		f.vals[phi] = v
 	}
 	e.loopInvariant(f, li, st, reach, "inv-init")
-	// 4. havoc
+	// 5. havoc
 	hs := st.clone()
+	e.loopPreAlloc = li.preAlloc
 	e.applyHavoc(hs, mods)
 	if e.rootCtr != nil && e.rootCtr.Writes != nil {
 		// the function's writes clause frames the loop: cells allocated before the call and not listed are unchanged
@@ -1161,20 +1356,10 @@ func (e *Exec) enterLoop(f *Frame, li *loopInfo, h *ssa.BasicBlock, st *State, r
 			e.assumeKeyed(nw, fmt.Sprintf("(forall ((rq Int)) (! (=> %s (= (select %s rq) (select %s rq))) :pattern ((select %s rq))))", And(cond...), nw, old, nw), "loop frame from the writes clause")
 		}
 	}
-	li.phiSyms = map[*ssa.Phi]Val{}
-	for _, ins := range h.Instrs {
-		phi, ok := ins.(*ssa.Phi)
-		if !ok {
-			break
-		}
-		nv := e.havocVal(phi.Type(), f.prefix+phi.Name())
-		if entryPhi[phi].Clo != nil {
-			nv.Clo = entryPhi[phi].Clo
-		}
+	for phi, nv := range li.phiSyms {
 		f.vals[phi] = nv
-		li.phiSyms[phi] = nv
-		e.autoPhiFacts(f, li, phi, nv, entryPhi[phi], hs)
 	}
+	e.assume(app(">=", e.allocCtr(hs), li.preAlloc), "")
 	li.headerState = hs.clone()
 	// 5. assume invariant
 	e.loopInvariantAssume(f, li, hs)
@@ -1200,6 +1385,11 @@ func (e *Exec) autoPhiFacts(f *Frame, li *loopInfo, phi *ssa.Phi, nv, entry Val,
 	}
 	// a slice accumulated by append only grows; it stays a well-formed slice
 	if _, ok := unalias(phi.Type()).Underlying().(*types.Slice); ok {
+		if entry.Term == zeroOfSort("Slice") {
+			// accumulator starting from nil: its backing array (if any) was allocated inside the loop
+			li.accum = append(li.accum, phi)
+			e.assume(e.accumInv(nv.Term, li), "accumulator slice starts nil: backing array allocated in the loop")
+		}
 		e.assume(And(app(">=", app("s_len", nv.Term), "0"), app(">=", app("s_off", nv.Term), "0"), app(">=", app("s_cap", nv.Term), app("s_len", nv.Term))), "")
 		e.assume(app("<=", app("s_base", nv.Term), e.allocCtr(hs)), "")
 	}
@@ -1305,4 +1495,15 @@ func (e *Exec) posStr(p token.Pos) string {
 	}
 	ps := e.W.prog.Fset.Position(p)
 	return fmt.Sprintf("%s:%d", strings.TrimPrefix(ps.Filename, e.W.repo+"/"), ps.Line)
+}
+
+func debugStack() string {
+	buf := make([]byte, 4096)
+	n := runtime.Stack(buf, false)
+	lines := strings.Split(string(buf[:n]), "\n")
+	var out []string
+	for i := 5; i < len(lines) && i < 15; i += 2 {
+		out = append(out, "      "+strings.TrimSpace(lines[i]))
+	}
+	return strings.Join(out, "\n")
 }
